@@ -347,6 +347,16 @@ def check_cp(ctx, im):
             got = [v for _, v in impl]
             if any(abs(a - b) > 1e-9 for a, b in zip(want, got)):
                 ctx.violation("per-line CP latencies %s are not the stages of the marked chain %s" % (got, want), info)
+    # the value is reported more than once per analysis (text report, then --yaml-out / --export-graph / the dict
+    # output all call get_critical_path again on the same instruction forms): every report must be the longest chain
+    im.cp()
+    again = im.cp()
+    ctx.count("cp_repeated_calls")
+    total3 = sum(v for _, v in again)
+    if abs(total - longest) <= 1e-9 and (abs(total3 - longest) > 1e-9 or [l for l, _ in again] != ln):
+        ctx.violation("critical path of a repeated call on the same kernel (as --yaml-out does after the text report) is %.2f "
+                      "over lines %s; the first call gave %.2f over %s, the longest chain is %.2f"
+                      % (total3, [l for l, _ in again], total, ln, longest), dict(info, third_call=again))
     maxlat = max([float(i.latency or 0) for i in im.kernel] + [0.0])
     if total < maxlat - 1e-9:
         ctx.violation("critical path %.2f is smaller than the latency %.2f of a single instruction" % (total, maxlat), info,
